@@ -34,6 +34,14 @@ func c10Body(r *Run) {
 	if earlyAll {
 		nLate = 0
 	}
+	// extra RunHandlers callers that overlap with the calls starting the late handlers
+	racers := t.Skewed(3)
+	// a sixth of the runs: the Run context is cancelled somewhere inside the start-up window; Run must still return nil
+	startupCancel := -1
+	if !earlyAll && t.Chance(1, 6) {
+		startupCancel = t.Int(40)
+		nLate = 0
+	}
 	ending := t.Int(3) // 0 Close, 1 cancel Run context, 2 stop every handler
 	secondRun := t.Int(3)
 	extraRunHandlers := t.Skewed(4)
@@ -161,6 +169,38 @@ func c10Body(r *Run) {
 		}
 	})
 
+	for i := 0; i < racers; i++ {
+		go func() {
+			// (RunHandlers is documented for handlers added after Run: the racers wait until the router runs, then
+			// overlap with each other and with the calls that start the late handlers)
+			<-rig.Router.Running()
+			for k := 0; k < 6; k++ {
+				if err := rig.Router.RunHandlers(rig.ctx); err == nil {
+					r.Probe("racing-runhandlers-call-succeeded")
+				}
+				simrt.Yield()
+			}
+		}()
+	}
+	if startupCancel >= 0 {
+		r.Fault("run-context-cancel-during-startup")
+		go func() {
+			for k := 0; k < startupCancel; k++ {
+				simrt.Yield()
+			}
+			rig.cancel()
+		}()
+		rig.StartAsync()
+		r.Sim.Quiesce()
+		// only the lifecycle outcome is demanded in this mode (AtEnd: Run returned nil, Subscribe once, Stopped() closed)
+		for _, h := range hs {
+			if !h.startedSeen {
+				h.stoppedClosed = true // never started: nothing to stop
+				counting.Invoked[h.topic] = 1
+			}
+		}
+		return
+	}
 	rig.StartAsync()
 	if secondRun == 1 {
 		go func() {
@@ -196,7 +236,7 @@ func c10Body(r *Run) {
 			continue
 		}
 		add(h)
-		n := 1 + t.Int(2)
+		n := 1 + t.Int(3)
 		done := make(chan struct{}, n)
 		for i := 0; i < n; i++ {
 			go func() {
